@@ -323,8 +323,13 @@ impl Scenario for Wire1 {
                 match h.await {
                     Ok(Ok(b)) => keep.push(b),
                     Ok(Err(v)) => {
-                        if result.is_ok() {
-                            result = Err(v)
+                        // a failed receiver drops its channel, which takes the demuxer (and thereby the other
+                        // receivers) down: prefer the primary failure over such collateral dequeue errors
+                        let collateral = |x: &Violation| x.message.contains("agent failed to dequeue chunk");
+                        match &result {
+                            Ok(()) => result = Err(v),
+                            Err(old) if collateral(old) && !collateral(&v) => result = Err(v),
+                            _ => {}
                         }
                     }
                     Err(e) if e.is_panic() => {
